@@ -1,6 +1,7 @@
 import Rp2.Model.TaxReport
 import Rp2.Model.OtherReports
 import Rp2.Model.Parser
+import Rp2.Model.Ini
 import Rp2.Gen.Countries
 import Rp2.Gen.Templates
 /-! The command-line layer (`rp2_main`): option handling, per-asset computation in sorted asset order, generators in execution
@@ -31,7 +32,7 @@ structure Options where
 inductive Report
   | full (rows : List RRow)
   | tax (rows : List TRow) (sheets : List String)
-  | openPos (a : List OARow) (e : List OERow)
+  | openPos (a : List OARow) (e : List OERow) (totals : List (String × Nat × String))
   | jp (sheets : List JSheet)
 
 structure Outcome where
@@ -71,7 +72,8 @@ def fileName (pfx mname base : String) : String := pfx ++ mname ++ "_" ++ base +
 def genReport (o : Options) (base : String) (period : Nat) (holderOf : Nat → String) (cs : List Computed) : Except String Report :=
   if base == "rp2_full_report" then (genFull true true holderOf period cs).map Report.full
   else if base == "open_positions" then
-    (openPositions holderOf cs).map (fun (r : List OARow × List OERow × Nat) => Report.openPos r.1 r.2.1)
+    (openPositions holderOf cs).map (fun (r : List OARow × List OERow × List String) =>
+      Report.openPos r.1 r.2.1 (totalRows "A" r.2.2 r.1.length ++ totalRows "E" r.2.2 r.2.1.length))
   else if base == "tax_report_jp" then
     (if o.fromD.isSome && o.toD.isSome then Except.error "jp: from and to"
      else (cs.mapM (jpAsset true)).map (fun (l : List (List JSheet)) => Report.jp l.flatten))
@@ -138,5 +140,28 @@ def runCells (o : Options) (cfg : Config) (grids : List (String × List (List Ce
     let pre := run o (acctNameOf cfg) (holderOfAcct cfg) cfg.assets []
     if pre.stage.startsWith "input" then reject s!"input: {e}" else pre
   | .ok sheets => run o (acctNameOf cfg) (holderOfAcct cfg) cfg.assets sheets
+
+/-- the rejections that precede the reading of the configuration file (argparse, language, `from_date > to_date`) -/
+def preConfig (o : Options) : Option Outcome :=
+  match country? o.script with
+  | none => some (reject "unknown entry point")
+  | some (_, _, _, _, methods, _, defLang) =>
+    if badMethod o methods then some (reject "argparse: invalid method" 2) else
+    if !o.knownLocales.contains (o.lang.getD defLang) then some (reject "language") else
+    if badWindow o then some (reject "from > to") else none
+
+/-- the whole run from the configuration file's sections (`none` = `configparser` itself refused the file: duplicate option, no section
+    header, …) and the spreadsheet cells: `Configuration.__init__` (`Ini.ofIni`), then `runCells` with the header maps, the asset /
+    exchange / holder lists and the `[accounting_methods]` schedule it produced -/
+def runIni (o : Options) (ini : Option (List Ini.Section)) (grids : List (String × List (List Cell))) : Outcome :=
+  match preConfig o with
+  | some r => r
+  | none =>
+    match ini with
+    | none => reject "configuration: not a readable INI file"
+    | some secs =>
+      match Ini.ofIni secs with
+      | .error e => reject s!"configuration: {e}"
+      | .ok c => runCells { o with cfgSched := c.methods } c.cfg grids
 
 end Rp2.Cli
